@@ -37,6 +37,7 @@ type c19Case struct {
 	Audio        string `json:"audio,omitempty"`          // video-led with an additional audio track: aac16 aac44 aac48 opus
 	AudioStartMS int    `json:"audio_start_ms,omitempty"` // the audio track starts this late
 	AudioFirst   bool   `json:"audio_first,omitempty"`    // the audio track is listed before the video track in Muxer.Tracks
+	AudioDefault bool   `json:"audio_default,omitempty"`  // the additional audio track is the one marked IsDefault
 	ParamAt      int    `json:"param_at,omitempty"`       // video: the k-th key frame (1-based, > 1) switches to the other parameter set
 }
 
@@ -98,12 +99,25 @@ func c19List(tier string) []vh.Scenario {
 			}
 		}
 	}
+	// audio only, two audio tracks (the second one plain or marked as the default rendition)
+	for _, s := range c19Sources(tier) {
+		if c19TwoAudio(s) {
+			for _, a := range []string{"aac44", "aac44*", "opus*"} {
+				out = append(out, vh.Scenario{Name: fmt.Sprintf("C19 %s %s clock=%d d=%d seg=%dms +%s", s.Label, s.Kind, s.Clock, s.D, 1000, a), Weight: 30})
+			}
+		}
+	}
 	for _, s := range c19Sources(tier) {
 		for _, seg := range []int{1000, 2000} {
 			out = append(out, vh.Scenario{Name: fmt.Sprintf("C19 %s %s clock=%d d=%d seg=%dms", s.Label, s.Kind, s.Clock, s.D, seg), Weight: 10 + 90000/s.D/4})
 		}
 	}
 	return out
+}
+
+// c19TwoAudio: the audio sources that are also run next to a second audio track.
+func c19TwoAudio(s c19Src) bool {
+	return (s.Kind == "aac" && s.Batch == 0 && !s.SBR && (s.Clock == 48000 || s.Clock == 22050)) || (s.Kind == "opus" && s.D == 960)
 }
 
 func c19Cfg(cs c19Case) muxCfg {
@@ -154,6 +168,7 @@ func c19RunCase(cs c19Case) (viols [][2]string, nplaylists int, outcome string) 
 		if cs.Audio == "opus" {
 			astep = 960
 		}
+		atk.IsDefault = cs.AudioDefault
 		mi.tracks = append(mi.tracks, atk)
 		if cs.AudioFirst {
 			mi.tracks = []*Track{atk, tk}
@@ -384,6 +399,7 @@ func c19Run(c *vh.Ctx) {
 	seg := 0
 	found := false
 	audio := ""
+	audioDefault := false
 	for _, s := range c19Sources(c.Tier) {
 		for _, sg := range []int{1000, 2000} {
 			base := fmt.Sprintf("C19 %s %s clock=%d d=%d seg=%dms", s.Label, s.Kind, s.Clock, s.D, sg)
@@ -393,6 +409,9 @@ func c19Run(c *vh.Ctx) {
 			for _, a := range c19AVAudio {
 				if base+" +"+a == c.Scenario {
 					src, seg, found, audio = s, sg, true, a
+				}
+				if base+" +"+a+"*" == c.Scenario {
+					src, seg, found, audio, audioDefault = s, sg, true, a, true
 				}
 			}
 		}
@@ -416,6 +435,9 @@ func c19Run(c *vh.Ctx) {
 	starts := []avMode{{0, false}}
 	if audio != "" {
 		starts = []avMode{{0, false}, {500, false}, {1250, false}, {0, true}}
+		if src.Kind != "h264" {
+			starts = []avMode{{0, false}, {500, false}}
+		}
 	}
 	// the grid, plus values that are not multiples of the library's 5 ms search step
 	var pms []int
@@ -430,7 +452,7 @@ func c19Run(c *vh.Ctx) {
 				if audio != "" && len(sp) > 1 && ast != 0 {
 					continue
 				}
-				cs := c19Case{Src: src, PartMS: pm, SegMS: seg, Spacing: sp, Audio: audio, AudioStartMS: ast, AudioFirst: am.first}
+				cs := c19Case{Src: src, PartMS: pm, SegMS: seg, Spacing: sp, Audio: audio, AudioStartMS: ast, AudioFirst: am.first, AudioDefault: audioDefault}
 				if src.Kind == "h264" && len(sp) == 1 && sp[0] == 1000 && ast == 0 && !am.first {
 					// the same grid point with new parameter sets on the second / third key frame
 					for _, pa := range []int{2, 3} {
